@@ -57,10 +57,6 @@ All rights reserved.
 #include <list>
 #include <functional>
 
-#ifndef IP_DONTFRAGMENT
-#define IP_DONTFRAGMENT 1
-#endif
-
 namespace sim
 {
 	namespace aux
